@@ -102,7 +102,7 @@ class Injector:
 
 
 ROLES = ["client-single", "client-batch", "claim-plain", "claim-blocking", "claim-concurrency-reroute", "work-success", "work-failure", "work-retry",
-         "work-not-authorised", "stop-kill-reroute", "recover-pending", "recover-running", "ppr-worker-loop", "mtr-worker-loop"]
+         "work-not-authorised", "stop-kill-reroute", "recover-pending", "recover-running", "ppr-worker-loop", "mtr-worker-loop", "pr-loop-iteration"]
 
 
 class Scenario:
@@ -124,6 +124,7 @@ class Scenario:
         self.late_accept: Callable[[], dict[str, Any]] | None = None
         self.live_cleanup: list[Callable[[], None]] = []
         self.live_ids: list[str] = []  # runners that stay alive and keep reporting heartbeats
+        self.teardown: list[Callable[[], Any]] = []
         plain = app.task(tasks.ident, max_retries=2)
         cc = app.task(tasks.other, running_concurrency=CC.TASK, reroute_on_concurrency_control=True)
         self.attempts: dict[Any, int] = {}
@@ -281,6 +282,27 @@ class Scenario:
                     clock.sleep_hook = None
 
             self.op = op_mtr
+        elif role == "pr-loop-iteration":
+            # the real ProcessRunner loop iteration (operating-system processes replaced by inert stand-ins): one fetch defers k2
+            # (its task is busy on the live runner P) and hands p3 to a worker process; the deferred one must be back in the queue
+            from pynenc.runner.process_runner import ProcessRunner
+            from verif.props import c14
+
+            saved = c14.install(2)
+            self.teardown.append(lambda: [setattr(m_, n_, o_) for m_, n_, o_ in reversed(saved)])
+            parent = ProcessRunner(app, runner_context=apps.rctx("PR", "ProcessRunner"))
+            app.runner = parent
+            self.live_ids.append(parent.runner_context.runner_id)
+            parent.running = True
+            parent._on_start()
+            first = submit(cc, "k1")
+            finv = claim_by(first, P)
+            app.orchestrator.set_invocation_status(first.invocation_id, S.RUNNING, P)
+            submit(cc, "k2")
+            submit(plain, "p3")
+            self.live_cleanup.append(lambda: app.orchestrator.set_invocation_result(finv, "k1-done", P))
+            self.accepted.pop(str(first.invocation_id))
+            self.op = parent.runner_loop_iteration
         else:
             raise ValueError(role)
 
@@ -440,6 +462,8 @@ def one_case(kind: str, role: str, variant: int, point: tuple[int, str] | None, 
         ok, desc = safe_now(sc.app, inv_id)
         state_at_crash[inv_id] = desc if not ok else f"covered:{desc}"
         unsafe += 0 if ok else 1
+    for fn in sc.teardown:  # module stand-ins of the role's operation are removed before the survivors run
+        fn()
     notes = survivors_script(sc, script) if script else []
     notes += recover_and_drain(sc)
     # (ii) end to end
